@@ -543,6 +543,7 @@ func c04RealSubE(name, dir string, qn, tn int, zone *time.Location, margin time.
 				e1, e2 := bothVerdicts(inv, ld)
 				if dir == "sound" && invalid > 0 {
 					oddHooksRefuse(ctx, cs, inv, ld, "the "+where+" is expired or not yet active")
+					loaderPanicsRefuse(ctx, cs, inv, ld, inv.Proof(), "the "+where+" is expired or not yet active")
 				}
 				restore()
 				ctx.Eval(2)
